@@ -178,7 +178,10 @@ func vfFail(id, stage, signature string, replayCase any, format string, args ...
 		one = one[:600] + "..."
 	}
 	fmt.Printf("\nVF-FAIL property=%s signature=%s replay=%s msg=%s\n", id, signature, path, one)
-	return msg
+	// The returned text is what rapid compares between runs while shrinking, so it
+	// must not contain anything that depends on map iteration order or timing: only
+	// the signature. The details are in the VF-FAIL line and in the replay file.
+	return "violation " + signature + " (details: VF-FAIL line above and " + path + ")"
 }
 
 // vfKnown reports whether a signature is listed as an open finding
